@@ -23,11 +23,12 @@ GEN_DEPTH = {
 
 MODULE_OF = {"MC_auth": "MC_auth.tla", "MC_noauth": "MC_auth.tla", "GEN_auth": "MC_auth.tla", "GEN_noauth": "MC_auth.tla", "GEN_anon": "MC_auth.tla",
              "MC_nonce": "Nonce.tla", "GEN_nonce": "Nonce.tla"}
-for _n in ("tcp", "tcpA", "tcpB"):
+for _n in ("tcp", "tcpA", "tcpB", "tcpC"):
     MODULE_OF["MC_" + _n] = MODULE_OF["GEN_" + _n] = "TurnTCP.tla"
 MC_DEPTH["MC_tcp"] = (6, 7)
 GEN_DEPTH["GEN_tcpA"] = (6, 7)
 GEN_DEPTH["GEN_tcpB"] = (5, 6)
+GEN_DEPTH["GEN_tcpC"] = (7, 8)
 for _n in ("clienttxn", "clienttxnLive", "clienttxnR", "clienttxnA", "clienttxnB", "clienttxnLA", "clienttxnLB", "clienttxnLC", "clienttxnLD", "clienttxnLE"):
     MODULE_OF["MC_" + _n] = MODULE_OF["GEN_" + _n] = "ClientTxn.tla"
     MC_DEPTH["MC_" + _n] = None
@@ -328,7 +329,7 @@ PROPS = {
                 run=with_ledger_rt(with_server_trace(core_run(["MC_relay", "MC_relayB", "MC_tcp", "MC_iso", "MC_veto"], ["GEN_relayA", "GEN_relayB", "GEN_relayD", "GEN_v6", "GEN_tcpB", "GEN_iso", "GEN_stream", "GEN_veto", "GEN_users"]))),
                 assumptions=BASE_ASSUME + ["the TCP connect target clause is decided on TurnTCP.tla (Connect to a vetoed peer: 403, no connection)"]),
     "C02": dict(title="only authorised peers reach the client", level="model_checking",
-                run=with_relaytcp(with_ledger_rt(with_server_trace(core_run(["MC_relay", "MC_relayB", "MC_v6", "MC_tcp"], ["GEN_relayA", "GEN_relayB", "GEN_relayD", "GEN_v6", "GEN_tcpA", "GEN_recycle"])))),
+                run=with_relaytcp(with_ledger_rt(with_server_trace(core_run(["MC_relay", "MC_relayB", "MC_v6", "MC_tcp"], ["GEN_relayA", "GEN_relayB", "GEN_relayD", "GEN_v6", "GEN_tcpA", "GEN_tcpC", "GEN_recycle"])))),
                 assumptions=BASE_ASSUME + ["the TCP clause (a peer connection is announced only with a live permission for its source IP, else closed silently) is decided on TurnTCP.tla"]),
     "C03": dict(title="state changes only with valid long-term credentials", level="model_checking",
                 run=core_run(["MC_auth", "MC_noauth", "MC_nonce"], ["GEN_auth", "GEN_noauth", "GEN_anon", "GEN_nonce", "GEN_users", "GEN_tcpA", "GEN_tcpB"]),
@@ -407,7 +408,7 @@ PROPS = {
                                            "teardown causes: lifetime expiry, Refresh(0), relay socket read error, Server.Close (UDP allocations); control-connection close, bind timeout, either side closing (TCP allocations, via TurnTCP.tla); "
                                            "teardown in the middle of a slow lifecycle callback is covered by the gated schedules of C18, not here"]),
     "C16": dict(title="TCP relay: bind once, by the owner, within 30 s, bytes intact", level="model_checking",
-                run=with_relaytcp(core_run(["MC_tcp"], ["GEN_tcpA", "GEN_tcpB"])),
+                run=with_relaytcp(core_run(["MC_tcp"], ["GEN_tcpA", "GEN_tcpB", "GEN_tcpC"])),
                 assumptions=["control, relayed, peer and data connections are in-memory buffered streams (harness/memstream.go); connection ids are aliased by order of appearance",
                              "bind timeout is the compiled-in 30 s; chunks of 5-64 seeded bytes are written with the system quiescent between them, so arbitrary coalescing is not explored here (C10 covers segmentation of the framing layer)",
                              "after every step the manager and allocation locks are probed (TryLock) and the tcpConnections table is compared with the spec"]),
